@@ -47,7 +47,7 @@ theorem renderN_elem (tag : Name) (body : List Node) :
         (renderL inl files J rng body st).bind fun r => .ok (.start tag :: r.1 ++ [.stop tag], r.2)
       | some (idx, mb) =>
         (renderL inl files J ⟨rng.lo, some (idx + 1), false⟩ body st).bind fun r =>
-          (J ⟨idx + 1, none, false⟩ mb { r.2 with sel := r.1 :: r.2.sel }).bind fun r' =>
+          (J ⟨idx + 1, rng.hi, false⟩ mb { r.2 with sel := r.1 :: r.2.sel }).bind fun r' =>
             .ok (r'.1, { r'.2 with sel := r'.2.sel.tail }) := rfl
 
 theorem renderN_select :
